@@ -649,7 +649,7 @@ func runPlCases(rep14, rep15 *ev.Reporter, seed int64, n int, tier string) (map[
 
 var hostileValues = []string{"2147483647", "2147483648", "4294967295", "4294967296", "9223372036854775807", "9223372036854775808", "18446744073709551615",
 	"", "-1", "0", "0.0", "NaN", "Inf", "-Inf", "1e999", "1e-999", "99999999999999999999999999", "0x", "\"", "\"\"", "a\"b",
-	",", "=", "YES", "NO", "@", "1@", "@1", "18446744073709551616", "00000000000000000001", " ", "\t", "1.5.5", "+1", "1e3", "0.000000001", "0.0000000001", "#", "\r"}
+	",", "=", "YES", "NO", "MAP", "PART", "NONE", "@", "1@", "@1", "18446744073709551616", "00000000000000000001", " ", "\t", "1.5.5", "+1", "1e3", "0.000000001", "0.0000000001", "#", "\r"}
 
 func mutateText(text string, rng *rand.Rand) string {
 	lines := strings.Split(text, "\n")
@@ -694,7 +694,8 @@ func mutateText(text string, rng *rand.Rand) string {
 				lines[i] = "#" + lines[i]
 			}
 		case 8: // insert a stray tag
-			stray := []string{"#EXTINF:", "#EXTINF:1", "#EXT-X-PART:", "#EXT-X-STREAM-INF:", "#EXT-X-MEDIA:TYPE=AUDIO", "#EXT-X-MAP:URI=\"\"", "#EXT-X-PRELOAD-HINT:TYPE=PART,URI=\"\"",
+			stray := []string{"#EXTINF:", "#EXTINF:1", "#EXT-X-PART:", "#EXT-X-STREAM-INF:", "#EXT-X-MEDIA:TYPE=AUDIO", "#EXT-X-MAP:URI=\"\"", "#EXT-X-PRELOAD-HINT:TYPE=PART,URI=\"\"", "#EXT-X-PRELOAD-HINT:TYPE=MAP,URI=\"init.mp4\"", "#EXT-X-PRELOAD-HINT:TYPE=MAP", "#EXT-X-PRELOAD-HINT:URI=\"p.mp4\"", "#EXT-X-MEDIA:TYPE=CLOSED-CAPTIONS,GROUP-ID=\"c\",NAME=\"n\",INSTREAM-ID=\"CC1\"",
+				"#EXT-X-SKIP:SKIPPED-SEGMENTS=1", "#EXT-X-SERVER-CONTROL:", "#EXT-X-START:TIME-OFFSET=", "#EXT-X-STREAM-INF:BANDWIDTH=1", "#EXT-X-I-FRAME-STREAM-INF:BANDWIDTH=1,URI=\"i.m3u8\"", "#EXT-X-GAP", "#EXT-X-BITRATE:", "#EXT-X-DISCONTINUITY",
 				"#EXT-X-PART:DURATION=0,URI=\"x\"", "#EXT-X-PART-INF:PART-TARGET=0", "#EXT-X-TARGETDURATION:0", "#EXT-X-KEY:METHOD=AES-128", "#EXT-X-BYTERANGE:", "#EXTM3U"}
 			lines = append(lines[:i], append([]string{stray[rng.Intn(len(stray))]}, lines[i:]...)...)
 		}
